@@ -3,13 +3,20 @@
 import glob, json, os
 V = os.path.dirname(os.path.dirname(os.path.abspath(__file__)))
 rows = []
+try:
+    FIRST = json.load(open(os.path.join(V, "seeded", "first_pass.json")))
+except Exception:
+    FIRST = {}
 for mp in sorted(glob.glob(os.path.join(V, "seeded", "*", "meta.json"))):
     m = json.load(open(mp))
     c = m.get("confirmed", {})
-    rows.append((os.path.basename(os.path.dirname(mp)), m.get("title", "")[:90].replace("|", "/"),
+    sid = os.path.basename(os.path.dirname(mp))
+    fp = FIRST.get(sid)
+    rows.append((sid, m.get("title", "")[:90].replace("|", "/"),
                  (m.get("needs_to_manifest", "") or "")[:160].replace("|", "/").replace("\n", " "),
                  "yes" if c.get("suite_baseline_tests_all_pass") else "?",
                  "%s/%s" % (c.get("demo_exit_without_change"), c.get("demo_exit_with_change")),
+                 {None: "-", 1: "caught", 0: "missed"}.get(fp, "missed"),
                  "CAUGHT" if c.get("check_exit") == 1 else "missed",
                  ", ".join(c.get("check_violation_keys", [])[:2])[:150]))
 with open(os.path.join(V, "seeded", "INDEX.md"), "w") as f:
@@ -19,10 +26,16 @@ with open(os.path.join(V, "seeded", "INDEX.md"), "w") as f:
             "(incl. `confirmed`: demo both ways, pinned suite with the change, quick check against a "
             "worktree carrying the change). Re-run: `tools/collect_seeds.py <dir>` or "
             "`tools/try_seed.py seeded/<id> [--inplace]`.\n\n"
-            "| id | change | needs to manifest | suite green | demo (without/with) | quick check | first violation keys |\n"
-            "|---|---|---|---|---|---|---|\n")
+            "| id | change | needs to manifest | suite green | demo (without/with) | first pass (waves 2,3) | quick check now | first violation keys |\n"
+            "|---|---|---|---|---|---|---|---|\n")
     for r in rows:
         f.write("| " + " | ".join(r) + " |\n")
-    n = len(rows); c = sum(1 for r in rows if r[5] == "CAUGHT")
+    n = len(rows); c = sum(1 for r in rows if r[6] == "CAUGHT")
+    for w in ("w2", "w3", "w4", "w5"):
+        ws = [r for r in rows if "-%s-" % w in r[0]]
+        if ws:
+            f.write("\nwave %s: %d changes, %d caught when first collected, %d caught by the current "
+                    "drivers.\n" % (w[1:], len(ws), sum(1 for r in ws if r[5] == "caught"),
+                                    sum(1 for r in ws if r[6] == "CAUGHT")))
     f.write("\n%d changes, %d caught by the quick tier of the property's own check.\n" % (n, c))
 print(len(rows), "rows")
